@@ -76,7 +76,8 @@ class Engine:
     chunk = 250
     rule = ("one run = one seeded execution of the real Parallel.irun/run over fake multiprocessing: workload "
             "(n ids, pool size, max_tasks, net_retry, task_timeout, durations, consumer/callback delays, raising "
-            "ids, transient network errors, tolerate_fails, irun/run, callbacks), every scheduling decision and "
+            "ids, transient network errors, tolerate_fails, irun/run, callbacks, tasks that run a coroutine in the worker through "
+            "annet.lib.do_async; one run in 16 submits some id several times and is judged on multisets), every scheduling decision and "
             "every delay are drawn from one choice list. Non-trivial = the multi-process path ran (>=2 workers, "
             ">=2 ids). Distinct = distinct SHA-256 of the sequence of (task, operation) events of the run.")
     components_real = ["annet.api.patch / annet.api.gen with PoolProgressLogger over simulated devices (1 run in 12)",
